@@ -4,8 +4,8 @@
   and internal/utils/utils.go (ToDotPath, needsBracketNotation, isIdentChar).
 
   Transcribed AS THE CODE COMPUTES THEM at /repo HEAD, i.e. after the fix commits 34fe188
-  (FormatError wrappers), ba66c69 (first segment quoted) and c7ce73a (quoted keys escaped, empty key
-  quoted): `formatError`, `dotPathEsc`.  The code as it stood before each fix is kept as
+  (FormatError wrappers), ba66c69 (first segment quoted), c7ce73a (quoted keys escaped, empty key
+  quoted) and cef00ff (reserved last segment keeps its message): `formatError`, `dotPathEsc`.  The code as it stood before each fix is kept as
   `formatLegacy` / `dotPathLegacy` (before ba66c69) / `dotPath` (before c7ce73a) for the witness theorems.
 
   Conventions
@@ -154,16 +154,28 @@ def updKid (k : String) (f : Fmt → Fmt) : List (String × Fmt) → List (Strin
 def errorsKey : String := "_errors"
 
 /-- The walk over the rendered path.  A segment equal to `"_errors"` finds the `[]string` stored
-    under that key, the type assertion to a map fails and the loop `continue`s: the segment is
-    skipped, and when it is the last one the message is not filed at all. -/
+    under that key, the type assertion to a map fails: the segment is skipped, and when it is the
+    last one the message is appended to the `_errors` of the node reached so far (`curr`). -/
 def Fmt.fileAt : List String → String → Fmt → Fmt
+  | [], m, t => t.addErr m
+  | k :: r, m, .node e kids =>
+    if k = errorsKey then Fmt.fileAt r m (.node e kids)
+    else .node e (updKid k (Fmt.fileAt r m) kids)
+
+/-- the walk before cef00ff: a reserved LAST segment made the loop `continue` without filing -/
+def Fmt.fileAtLegacy : List String → String → Fmt → Fmt
   | [], m, t => t.addErr m
   | k :: r, m, .node e kids =>
     if k = errorsKey then
       match r with
       | [] => .node e kids
-      | _ :: _ => Fmt.fileAt r m (.node e kids)
-    else .node e (updKid k (Fmt.fileAt r m) kids)
+      | _ :: _ => Fmt.fileAtLegacy r m (.node e kids)
+    else .node e (updKid k (Fmt.fileAtLegacy r m) kids)
+
+/-- the position a rendered path denotes in the report: reserved segments cannot be represented -/
+def stripReserved : List String → List String
+  | [] => []
+  | k :: r => if k = errorsKey then stripReserved r else k :: stripReserved r
 
 def anyNonEmpty : List (List Issue) → Bool
   | [] => false
